@@ -22,7 +22,7 @@ from vlib import Check, Broken, log
 ALL_OPS = ["krig_u", "krig_m", "krig_mb", "neigh_u", "neigh_m", "neigh_mb", "xvalid_u", "xvalid_m", "vario", "vario_cov", "stat",
            "stat_iso", "cov", "cov_sym", "drift", "simtub", "simtub_pt", "migrate", "migrate_ball", "migrate_grid",
            "migrate_fill", "reduce"]
-F_OPS = ["krig_u", "krig_m", "krig_mb", "neigh_u", "neigh_m", "xvalid_u", "xvalid_m", "drift", "simtub"]
+F_OPS = ["krig_u", "krig_m", "krig_mb", "neigh_u", "neigh_m", "xvalid_u", "xvalid_m", "drift"]
 V_OPS = ["krig_u", "krig_m", "xvalid_u", "cov_sym", "drift"]
 T_OPS = ["t_krig_u", "t_krig_m", "t_simtub", "t_simtub_grid", "t_simtub_nc", "t_migrate", "t_migrate_ball"]
 
